@@ -120,8 +120,31 @@ impl<const N: usize> Ex<N> {
     #[inline]
     pub fn fail(&mut self, classes: u32, msg: String) {
         if self.fail.is_none() {
-            self.fail = Some(Failure { step: self.cur, classes, op: self.cur_op, msg });
+            // element hooks may have recorded that a non-live element was touched in this very
+            // step (e.g. a stale copy formatted or dropped): that is part of the same failure
+            let extra = self.pending_hook_classes();
+            self.fail = Some(Failure { step: self.cur, classes: classes | extra, op: self.cur_op, msg });
         }
+    }
+
+    fn pending_hook_classes(&self) -> u32 {
+        let v: Vec<Viol> = H.with(|h| h.try_borrow().map(|h| h.viol.iter().map(|x| x.0).collect()).unwrap_or_default());
+        let fam = self.faulted.or(self.run_family);
+        let famcls = match fam {
+            Some(FaultFamily::Drop) => cls::DROP_FAULT,
+            Some(FaultFamily::User) => cls::USER_FAULT,
+            Some(FaultFamily::Forget) => cls::FORGET,
+            None => cls::LEDGER,
+        };
+        let mut c = 0;
+        for viol in v {
+            c |= match viol {
+                Viol::GarbageTouched => cls::GARBAGE,
+                Viol::DeadTouched | Viol::StaleDropped | Viol::LeakedTouched => cls::GARBAGE | famcls,
+                Viol::DoubleDrop => famcls,
+            };
+        }
+        c
     }
 
     /// Takes an element to give to the crate: from the hand (c > 0) or freshly created.
